@@ -1,5 +1,7 @@
 // U03 chunk -- rust/automerge/src/storage/chunk.rs  (engine V part: the hash preimage)
+#![feature(allocator_api)]
 use vstd::prelude::*;
+use std::ops::Range;
 verus! {
 
 //@ item rust/automerge/src/types.rs | const HASH_SIZE
@@ -70,10 +72,103 @@ impl ChangeHash {
     ensures r.0@ == sha256(seq![ct_u8(typ)] + leb(data.len() as nat) + data@)
 //@ end
 
+// ================================================================ Header::{new, with_data, len, write, data_bytes, hash, checksum}
+//@ item rust/automerge/src/storage.rs | const MAGIC_BYTES
+/// std: `Vec::extend(x)` appends the items of x (ASSUMED; vstd has no spec for Extend) -- used with `[u8; 4]` arguments
+pub uninterp spec fn iter_items<I, T>(it: I) -> Seq<T>;
+pub assume_specification<T, A: core::alloc::Allocator, I: IntoIterator<Item = T>>[ <Vec<T, A> as Extend<T>>::extend::<I> ](v: &mut Vec<T, A>, iter: I)
+    ensures final(v)@ == old(v)@ + iter_items::<I, T>(iter);
+#[verifier::external_body]
+pub broadcast proof fn axiom_iter_items_array4(a: [u8; 4]) ensures #[trigger] iter_items::<[u8; 4], u8>(a) == a@ {}
+/// columnar::encoding::leb128::ulebsize -- ASSUMED to be the length of the canonical encoding
+/// (Kani harness u03_leb128_writer_matches_parser checks ulebsize(v) == bytes written, for all u64)
+#[verifier::external_body]
+pub fn ulebsize(val: u64) -> (r: u64) ensures r == leb(val as nat).len(), 1 <= r <= 10 { unimplemented!() }
+//@ item rust/automerge/src/storage/chunk.rs | struct CheckSum
+//@ item rust/automerge/src/storage/chunk.rs | struct Header
+impl vstd::std_specs::convert::FromSpecImpl<[u8; 4]> for CheckSum {
+    open spec fn obeys_from_spec() -> bool { true }
+    open spec fn from_spec(raw: [u8; 4]) -> CheckSum { CheckSum(raw) }
+}
+impl From<[u8; 4]> for CheckSum {
+//@ fn rust/automerge/src/storage/chunk.rs | impl From<[u8; 4]> for CheckSum | from
+//@   ret r
+//@   spec
+        ensures r == CheckSum(raw),
+//@ end
+}
+impl CheckSum {
+//@ fn rust/automerge/src/storage/chunk.rs | impl CheckSum | bytes
+//@   ret r
+//@   spec
+        ensures r == self.0,
+//@ end
+}
+
+/// wire form of a chunk header
+pub open spec fn header_enc(h: Header) -> Seq<u8> {
+    MAGIC_BYTES@ + h.checksum.0@ + seq![ct_u8(h.chunk_type)] + leb(h.data_len as nat)
+}
+impl Header {
+//@ fn rust/automerge/src/storage/chunk.rs | impl Header | new
+//@   ret r
+//@   spec
+        ensures
+            r.chunk_type == chunk_type, r.data_len == data.len(),
+            // C10: the stored hash is SHA-256 over  type ++ leb(len) ++ data ...
+            r.hash.0@ == sha256(seq![ct_u8(chunk_type)] + leb(data.len() as nat) + data@),
+            // C14: ... and the checksum written to the wire is its first four bytes
+            r.checksum.0@ == r.hash.0@.subrange(0, 4),
+            r.header_size == header_enc(r).len(),
+//@ end
+
+//@ fn rust/automerge/src/storage/chunk.rs | impl Header | with_data
+//@   ret r
+//@   spec
+        ensures
+            r.chunk_type == chunk_type, r.data_len == data.len(), r.checksum == self.checksum,
+            r.hash.0@ == sha256(seq![ct_u8(chunk_type)] + leb(data.len() as nat) + data@),
+            r.header_size == header_enc(r).len(),
+//@ end
+
+//@ fn rust/automerge/src/storage/chunk.rs | impl Header | len
+//@   ret r
+//@   spec
+        ensures r == self.header_size,
+//@ end
+
+//@ fn rust/automerge/src/storage/chunk.rs | impl Header | write
+//@   spec
+        ensures
+            // C10/C14: what is written is exactly magic ++ checksum ++ type ++ leb(data_len)
+            final(out)@ == old(out)@ + header_enc(*self),
+//@   before /out\.extend\(MAGIC_BYTES\);/
+        proof { axiom_iter_items_array4(MAGIC_BYTES); axiom_iter_items_array4(self.checksum.0); }
+//@ end
+
+//@ fn rust/automerge/src/storage/chunk.rs | impl Header | data_bytes
+//@   ret r
+//@   spec
+        requires self.header_size + self.data_len <= usize::MAX,
+        ensures r.start == self.header_size, r.end == self.header_size + self.data_len,
+//@ end
+
+//@ fn rust/automerge/src/storage/chunk.rs | impl Header | hash
+//@   ret r
+//@   spec
+        ensures r == self.hash,
+//@ end
+
+//@ fn rust/automerge/src/storage/chunk.rs | impl Header | checksum
+//@   ret r
+//@   spec
+        ensures r == self.checksum,
+//@ end
+}
+
 // ================================================================ Chunk::checksum_valid (C14)
 /// the four chunk bodies are opaque here; each exposes the ghost fact "its stored checksum matches its hash"
 pub struct Unverified;
-//@ item rust/automerge/src/storage/chunk.rs | struct CheckSum
 #[verifier::external_body] pub struct Document<'a> { _p: core::marker::PhantomData<&'a ()> }
 #[verifier::external_body] #[verifier::reject_recursive_types(V)] pub struct Change<'a, V> { _p: core::marker::PhantomData<&'a V> }
 #[verifier::external_body] #[verifier::reject_recursive_types(V)] pub struct BundleStorage<'a, V> { _p: core::marker::PhantomData<&'a V> }
